@@ -1,8 +1,530 @@
 /-
-  C01 — property theorems (see DESIGN.md §6 C01).  Helper lemmas live in Proofs/.
+  C01 — core evaluation matches the language definition (results and effect order).
+
+  The laws of evaluation of the evaluator model (`LispModel/Eval.lean`, the mirror of `EVAL`,
+  `eval_ast`, `do`, `macroexpand`, `Apply` and the parameter binder), one theorem per clause of the
+  language definition.  Each law is an equation about the loop `evalLoop` (one `EVAL` activation) on
+  the corresponding form, for ALL sub-forms, stores, scopes, depths `d` and fuel `F`.
+
+  Reading guide
+  * `evalLoop (F+2) st env form d` — the loop of one `EVAL` activation on `form` in scope `env`;
+    `eval (F+1) st env x (d+1)` — a recursive `EVAL` (depth + 1); `evalLoop (F+1) st' env' x d` on a
+    right-hand side — the loop *continues* with `x` (tail position, same activation).
+    Results other than `.oof` do not depend on the fuel (`result_independent_of_fuel`).
+  * Standing side conditions (stated per law, only where needed): the debugger is off
+    (`st.stepper = none`), the context is not cancelled (`st.cancelAt = none`), and the head symbol of
+    the form is not bound to a macro (`NotMacro st env "if"` …): jig/lisp looks the head symbol up as a
+    macro BEFORE it recognises special forms, so a user macro named `if` shadows the special form.
+  * `tick st` — `st` after one poll of `ctx.Done()`: every loop iteration polls once.
+  * the trace of `trace!` effects is stored most-recent-first.
+
+  Property theorems only; the proofs are in `Proofs/EvalLaws.lean` and `Proofs/EvalBasic.lean`.
 -/
 import LispModel.Eval
+import LispModel.Proofs.EvalBasic
+import LispModel.Proofs.EvalLaws
 namespace LispModel.Props.C01
-open LispModel
+open LispModel LispModel.Core
+open LispModel.Proofs.EvalBasic (TraceSuffix)
+
+variable {F : Nat} {st : State} {env d : Nat} {pos p0 : Option Pos}
+
+/-! ### the result does not depend on the fuel; effects are only appended -/
+
+/-- a result (value or error, and state) obtained with some fuel is the result with any larger fuel:
+    the equations below determine THE result of an evaluation -/
+theorem result_independent_of_fuel {F F' : Nat} (hle : F ≤ F') {ast : Val} {r : Res Val} {s : State}
+    (h : eval F st env ast d = (r, s)) (hne : r ≠ .oof) : eval F' st env ast d = (r, s) :=
+  Proofs.EvalBasic.eval_fuel_le hle h hne
+
+/-- without debugger, `EVAL` is its loop (this connects the `eval` on the right-hand sides below to the
+    laws, which are stated for `evalLoop`) -/
+theorem eval_is_its_loop (hs : st.stepper = none) (ast : Val) :
+    eval (F+1) st env ast d = evalLoop F st env ast d :=
+  Proofs.EvalLaws.eval_of_stepper_none hs
+
+/-- the standing conditions persist: evaluation never switches the debugger on nor cancels the context -/
+theorem standing_conditions_persist (F : Nat) (st : State) (env : Nat) (ast : Val) (d : Nat) :
+    (st.stepper = none → (eval F st env ast d).2.stepper = none) ∧
+    (eval F st env ast d).2.cancelAt = st.cancelAt :=
+  ⟨(Proofs.EvalBasic.stepper_none_preserved F).eval₂ st env ast d,
+   (Proofs.EvalBasic.cancelAt_preserved F).eval₂ st env ast d⟩
+
+/-- side effects are only ever appended to the trace, never removed or reordered -/
+theorem effects_only_appended (F : Nat) (st : State) (env : Nat) (ast : Val) (d : Nat) :
+    ∃ new, (eval F st env ast d).2.trace = new ++ st.trace :=
+  (Proofs.EvalBasic.trace_suffix F).eval₂ st env ast d
+
+/-! ### lexical scoping with the innermost binding winning -/
+
+/-- evaluating a symbol is a lookup (`Env.Get`) from the current scope -/
+theorem eval_symbol (hc : st.cancelAt = none) (s : String) (p : Option Pos) :
+    evalLoop (F+2) st env (.sym s p) d =
+      match st.get env s with
+      | some v => (.ok v, tick st)
+      | none => (.err (.lisp (.goerr ("symbol '" ++ s ++ "' not found")) p), tick st) :=
+  Proofs.EvalLaws.eval_symbol hc s p
+
+/-- the innermost binding wins: if the current scope `env` itself binds `k`, that binding is the value,
+    whatever the scopes around it bind -/
+theorem eval_symbol_innermost (hc : st.cancelAt = none) {sc : Scope} {k : String} {v : Val} (p : Option Pos)
+    (hsc : st.scopes[env]? = some sc) (hk : alookup k sc.data = some v) :
+    evalLoop (F+2) st env (.sym k p) d = (.ok v, tick st) :=
+  Proofs.EvalLaws.eval_symbol_innermost hc p hsc hk
+
+/-- … and if it does not, the scope it is nested in (`outer`) is consulted: the symbol means what it
+    means there.  (`ScopesWF`: outer links point to older scopes.) -/
+theorem eval_symbol_outer (hc : st.cancelAt = none) (hwf : ScopesWF st) {sc : Scope} {k : String} {o : Nat}
+    (p : Option Pos) (hsc : st.scopes[env]? = some sc) (hk : alookup k sc.data = none) (ho : sc.outer = some o) :
+    evalLoop (F+2) st env (.sym k p) d = evalLoop (F+2) st o (.sym k p) d :=
+  Proofs.EvalLaws.eval_symbol_outer hc hwf p hsc hk ho
+
+/-- one step of the climb, without any assumption on the store -/
+theorem lookup_climbs_to_outer {sc : Scope} {k : String} {o : Nat} (n : Nat)
+    (hsc : st.scopes[env]? = some sc) (hk : alookup k sc.data = none) (ho : sc.outer = some o) :
+    st.getAux (n+1) env k = st.getAux n o k :=
+  Proofs.EvalLaws.getAux_outer n hsc hk ho
+
+/-- a symbol bound nowhere on the scope chain is an error (positioned at the symbol) -/
+theorem eval_unbound_symbol_errors (hc : st.cancelAt = none) {s : String} (p : Option Pos)
+    (hu : st.get env s = none) :
+    evalLoop (F+2) st env (.sym s p) d =
+      (.err (.lisp (.goerr ("symbol '" ++ s ++ "' not found")) p), tick st) :=
+  Proofs.EvalLaws.eval_unbound_symbol_errors hc p hu
+
+/-- the root scope ends the climb -/
+theorem unbound_at_root {sc : Scope} {k : String}
+    (hsc : st.scopes[env]? = some sc) (hk : alookup k sc.data = none) (ho : sc.outer = none) :
+    st.get env k = none :=
+  Proofs.EvalLaws.get_root_unbound hsc hk ho
+
+/-! ### def binds in the current scope and returns the value -/
+
+/-- `(def name x)`: the operand is evaluated first (recursive `EVAL`); its value is bound to `name` in
+    the CURRENT scope `env` (not in the scope where an outer binding of `name` lives) and returned; an
+    error of the operand is the error of the `def`, and nothing is bound -/
+theorem eval_def (hc : st.cancelAt = none) (hm : NotMacro st env "def")
+    (name : String) (pn : Option Pos) (x : Val) (rest : List Val) :
+    evalLoop (F+2) st env (.list (.sym "def" p0 :: .sym name pn :: x :: rest) pos) d =
+      match eval (F+1) (tick st) env x (d+1) with
+      | (.ok v, st') => (.ok v, st'.set env name v)
+      | r => r :=
+  Proofs.EvalLaws.eval_def hc hm name pn x rest
+
+/-- what `def` did is what a lookup from that scope now finds -/
+theorem def_then_lookup {sc : Scope} (hsc : st.scopes[env]? = some sc) (k : String) (v : Val) :
+    (st.set env k v).get env k = some v :=
+  Proofs.EvalLaws.get_set_self hsc k v
+
+/-- a target that is not a symbol is an error — raised AFTER the operand has been evaluated (its
+    effects have happened) -/
+theorem eval_def_non_symbol (hc : st.cancelAt = none) (hm : NotMacro st env "def")
+    (target : Val) (ht : ∀ n p, target ≠ .sym n p) (x : Val) (rest : List Val) :
+    evalLoop (F+2) st env (.list (.sym "def" p0 :: target :: x :: rest) pos) d =
+      match eval (F+1) (tick st) env x (d+1) with
+      | (.ok _, st') => (.err (newLispError (.plain "cannot use value as identifier")
+                                (.list (.sym "def" p0 :: target :: x :: rest) pos)), st')
+      | r => r :=
+  Proofs.EvalLaws.eval_def_non_symbol hc hm target ht x rest
+
+/-! ### sequential let; do / let / fn bodies -/
+
+/-- `(let (b₁ x₁ …) body…)`: a NEW scope (id `st.scopes.size`) nested in the current one receives the
+    bindings (`letBinds`, next law); then the body forms are evaluated in that scope in order — all but
+    the last by `evalList`, the last one in tail position — and the value is the value of the last body
+    form; with no body form the loop continues on `nil` (value `nil`, law `eval_do_empty`);
+    an error in a binding or body form stops everything after it -/
+theorem eval_let_sequential (hc : st.cancelAt = none) (hs : st.stepper = none) (hm : NotMacro st env "let")
+    (bindings : Val) (bs : List Val) (body : List Val)
+    (hb : seqOf? bindings = some bs) (heven : bs.length % 2 = 0) :
+    evalLoop (F+2) st env (.list (.sym "let" p0 :: bindings :: body) pos) d =
+      match letBinds (F+1) ((tick st).newScope env []).1 st.scopes.size bs bindings d with
+      | (.ok _, st1) =>
+        (match body with
+         | [] => evalLoop (F+1) st1 st.scopes.size .nil d
+         | b :: bs' =>
+           match evalList F st1 st.scopes.size (b :: bs').dropLast d with
+           | (.ok _, st2) => evalLoop (F+1) st2 st.scopes.size ((b :: bs').getLast (by simp)) d
+           | (.err e, st2) => (.err e, st2)
+           | (.oof, st2) => (.oof, st2))
+      | r => r :=
+  Proofs.EvalLaws.eval_let hc hs hm bindings bs body hb heven
+
+/-- the new scope of a `let` / of a call: exactly the given bindings, nested in `outer` -/
+theorem new_scope_is_nested (st : State) (outer : Nat) (data : List (String × Val)) :
+    (st.newScope outer data).1.scopes[(st.newScope outer data).2]? = some ⟨data, some outer⟩ :=
+  Proofs.EvalLaws.newScope_scope st outer data
+
+/-- sequential `let`: the value form of a binding is evaluated IN the `let` scope, in the state in
+    which all earlier bindings of the same `let` have already been made in that scope (so they are
+    visible, `def_then_lookup`); an error stops the later bindings -/
+theorem let_bindings_sequential (st : State) (letEnv : Nat) (name : String) (pn : Option Pos) (x : Val)
+    (rest : List Val) (a1 : Val) :
+    letBinds (F+1) st letEnv (.sym name pn :: x :: rest) a1 d =
+      match eval F st letEnv x (d+1) with
+      | (.ok v, st') => letBinds F (st'.set letEnv name v) letEnv rest a1 d
+      | r => r :=
+  Proofs.EvalLaws.letBinds_cons st letEnv name pn x rest a1
+
+theorem let_bindings_done (st : State) (letEnv : Nat) (a1 : Val) :
+    letBinds (F+1) st letEnv [] a1 d = (.ok .nil, st) :=
+  Proofs.EvalLaws.letBinds_nil st letEnv a1
+
+/-- `(do x₁ … xₙ)`: every form in order — all but the last by `evalList`, whose values are dropped,
+    the last one in tail position — and the value is the value of the last form; an error stops the
+    later forms.  A `fn` body is `(do body…)` (law `eval_fn_captures_scope`), a `let` body behaves the
+    same (law `eval_let_sequential`). -/
+theorem eval_do (hc : st.cancelAt = none) (hs : st.stepper = none) (hm : NotMacro st env "do")
+    (body : List Val) :
+    evalLoop (F+2) st env (.list (.sym "do" p0 :: body) pos) d =
+      match body with
+      | [] => evalLoop (F+1) (tick st) env .nil d
+      | b :: bs =>
+        match evalList F (tick st) env (b :: bs).dropLast d with
+        | (.ok _, st1) => evalLoop (F+1) st1 env ((b :: bs).getLast (by simp)) d
+        | (.err e, st1) => (.err e, st1)
+        | (.oof, st1) => (.oof, st1) :=
+  Proofs.EvalLaws.eval_do hc hs hm body
+
+/-- `(do)` is `nil` (the loop continues on the form `nil`: two polls in all) -/
+theorem eval_do_empty (hc : st.cancelAt = none) (hs : st.stepper = none) (hm : NotMacro st env "do") :
+    evalLoop (F+3) st env (.list [.sym "do" p0] pos) d = (.ok .nil, tick (tick st)) :=
+  Proofs.EvalLaws.eval_do_empty hc hs hm
+
+/-! ### only nil and false are falsy; only the selected branch of `if` is evaluated -/
+
+/-- only `nil` and `false` are falsy -/
+theorem only_nil_and_false_falsy (v : Val) : truthy v = false ↔ v = .nil ∨ v = .bool false :=
+  Proofs.EvalLaws.truthy_eq_false_iff v
+
+/-- condition truthy: the `if` continues with the THEN form `a` (tail position) in the state the
+    condition left; no other operand (`rest`, in particular the else form) is evaluated -/
+theorem eval_if_truthy (hc : st.cancelAt = none) (hs : st.stepper = none) (hm : NotMacro st env "if")
+    {c : Val} {v : Val} {st1 : State} (a : Val) (rest : List Val)
+    (hcond : eval (F+1) (tick st) env c (d+1) = (.ok v, st1)) (hv : truthy v = true) :
+    evalLoop (F+2) st env (.list (.sym "if" p0 :: c :: a :: rest) pos) d = evalLoop (F+1) st1 env a d :=
+  Proofs.EvalLaws.eval_if_truthy hc hs hm a rest hcond hv
+
+/-- condition falsy: the `if` continues with the ELSE form `b`; the then form `a` is not evaluated -/
+theorem eval_if_falsy (hc : st.cancelAt = none) (hs : st.stepper = none) (hm : NotMacro st env "if")
+    {c : Val} {v : Val} {st1 : State} (a b : Val) (rest : List Val)
+    (hcond : eval (F+1) (tick st) env c (d+1) = (.ok v, st1)) (hv : truthy v = false) :
+    evalLoop (F+2) st env (.list (.sym "if" p0 :: c :: a :: b :: rest) pos) d = evalLoop (F+1) st1 env b d :=
+  Proofs.EvalLaws.eval_if_falsy hc hs hm a b rest hcond hv
+
+/-- condition falsy and no else form: `nil`, and the then form is not evaluated -/
+theorem eval_if_no_else (hc : st.cancelAt = none) (hs : st.stepper = none) (hm : NotMacro st env "if")
+    {c : Val} {v : Val} {st1 : State} (a : Val)
+    (hcond : eval (F+1) (tick st) env c (d+1) = (.ok v, st1)) (hv : truthy v = false) :
+    evalLoop (F+2) st env (.list [.sym "if" p0, c, a] pos) d = (.ok .nil, st1) :=
+  Proofs.EvalLaws.eval_if_no_else hc hs hm a hcond hv
+
+/-- an error of the condition is the error of the `if`; no branch is evaluated -/
+theorem eval_if_cond_error (hc : st.cancelAt = none) (hs : st.stepper = none) (hm : NotMacro st env "if")
+    {c : Val} {e : Err} {st1 : State} (branches : List Val)
+    (hcond : eval (F+1) (tick st) env c (d+1) = (.err e, st1)) :
+    evalLoop (F+2) st env (.list (.sym "if" p0 :: c :: branches) pos) d = (.err e, st1) :=
+  Proofs.EvalLaws.eval_if_cond_error hc hs hm branches hcond
+
+/-! ### quote; closures capture their defining scope -/
+
+/-- `(quote x)`: the operand, unevaluated -/
+theorem eval_quote (hc : st.cancelAt = none) (hm : NotMacro st env "quote") (x : Val) (rest : List Val) :
+    evalLoop (F+2) st env (.list (.sym "quote" p0 :: x :: rest) pos) d = (.ok x, tick st) :=
+  Proofs.EvalLaws.eval_quote hc hm x rest
+
+/-- `(fn params body…)`: a closure that records the scope id `env` in which the `fn` form was evaluated,
+    its parameter form, and its body wrapped as `(do body…)`; nothing is evaluated -/
+theorem eval_fn_captures_scope (hc : st.cancelAt = none) (hm : NotMacro st env "fn") (params : Val)
+    (body : List Val) :
+    evalLoop (F+2) st env (.list (.sym "fn" p0 :: params :: body) pos) d =
+      (.ok (.fn params (.list (.sym "do" none :: body) none) env false pos), tick st) :=
+  Proofs.EvalLaws.eval_fn_captures_scope hc hm params body
+
+/-! ### calls: arguments exactly once, left to right, before the call -/
+
+/-- the defining equation of argument evaluation: the first form first (recursive `EVAL`), the state it
+    leaves threads into the evaluation of the rest; an error in a form is the result, and the later
+    forms are not evaluated (their effects do not happen) -/
+theorem evalList_left_to_right (st : State) (x : Val) (xs : List Val) :
+    evalList (F+1) st env (x :: xs) d =
+      match eval F st env x (d+1) with
+      | (.ok v, st1) =>
+        (match evalList F st1 env xs d with
+         | (.ok vs, st2) => (.ok (v :: vs), st2)
+         | r => r)
+      | (.err e, st1) => (.err e, st1)
+      | (.oof, st1) => (.oof, st1) :=
+  Proofs.EvalLaws.evalList_left_to_right st x xs
+
+theorem evalList_nil (st : State) : evalList (F+1) st env [] d = (.ok [], st) :=
+  Proofs.EvalLaws.evalList_nil st
+
+/-- an error in an element stops the evaluation of the later ones -/
+theorem evalList_error_stops {x : Val} {e : Err} {st1 : State} (xs : List Val)
+    (h : eval F st env x (d+1) = (.err e, st1)) : evalList (F+1) st env (x :: xs) d = (.err e, st1) :=
+  Proofs.EvalLaws.evalList_error_stops xs h
+
+/-- `evalList` succeeds exactly when there is a left-to-right run (`ArgRun`): each form evaluated
+    exactly once, in order, each appending its own segment of effects -/
+theorem evalList_is_a_left_to_right_run {xs vs : List Val} {st' : State} :
+    evalList F st env xs d = (.ok vs, st') ↔ ∃ ts, ArgRun env d F st xs vs ts st' :=
+  Proofs.EvalLaws.evalList_ok_iff
+
+/-- the application arm as a whole: head and arguments are evaluated first, exactly once, left to
+    right, by ONE `evalList` over the whole form (an error there is the result); only then the callee
+    is inspected -/
+theorem eval_application (hc : st.cancelAt = none) (hs : st.stepper = none) {f : Val} (args : List Val)
+    (hm : HeadNotMacro st env f) (hsf : a0sym f ∉ specialForms) :
+    evalLoop (F+2) st env (.list (f :: args) pos) d =
+      match evalList (F+1) (tick st) env (f :: args) d with
+      | (.ok el, st1) =>
+        (match el with
+         | [] => (.err (.plain "empty application"), st1)
+         | fv :: vs =>
+           match fv with
+           | .fn params body fenv _ _ =>
+             (match bindParams params vs with
+              | .error e =>
+                (match e with
+                 | .lisp (.goerr m) _ => (.err (.lisp (.goerr (m ++ " (around do)")) none), st1)
+                 | e => (.err (newLispError e body), st1))
+              | .ok data => evalLoop (F+1) (st1.newScope fenv data).1 (st1.newScope fenv data).2 body d)
+           | .builtin name =>
+             (match callBuiltin (F+1) st1 name vs d with
+              | (.ok v, st2) => (.ok v, st2)
+              | (.err e, st2) => (.err (newLispError e (.list (f :: args) pos)), st2)
+              | (.oof, st2) => (.oof, st2))
+           | _ => (.err (.lisp (.goerr "attempt to call non-function") none), st1))
+      | (.err e, st1) => (.err e, st1)
+      | (.oof, st1) => (.oof, st1) :=
+  Proofs.EvalLaws.eval_application hc hs args hm hsf
+
+/-- calling a closure: after head and arguments have been evaluated (`hargs`), the parameters are bound
+    (`hbind`) in a NEW scope whose `outer` is the closure's DEFINING scope `fenv` — not the caller's
+    `env` (law `new_scope_is_nested`) — and the body is evaluated there, in tail position -/
+theorem eval_apply_closure (hc : st.cancelAt = none) (hs : st.stepper = none) {f : Val} {args : List Val}
+    (hm : HeadNotMacro st env f) (hsf : a0sym f ∉ specialForms)
+    {params body : Val} {fenv : Nat} {m : Bool} {fp : Option Pos} {vs : List Val} {st1 : State}
+    {data : List (String × Val)}
+    (hargs : evalList (F+1) (tick st) env (f :: args) d = (.ok (.fn params body fenv m fp :: vs), st1))
+    (hbind : bindParams params vs = .ok data) :
+    evalLoop (F+2) st env (.list (f :: args) pos) d =
+      evalLoop (F+1) (st1.newScope fenv data).1 (st1.newScope fenv data).2 body d :=
+  Proofs.EvalLaws.eval_apply_closure hc hs hm hsf hargs hbind
+
+/-- in the scope of a call the parameters win, every other symbol means what it meant where the closure
+    was defined (lexical, not dynamic, scoping) -/
+theorem lookup_in_call_scope (hwf : ScopesWF st) {fenv : Nat} (hf : fenv < st.scopes.size)
+    (data : List (String × Val)) (k : String) :
+    (st.newScope fenv data).1.get (st.newScope fenv data).2 k =
+      match alookup k data with
+      | some v => some v
+      | none => st.get fenv k :=
+  Proofs.EvalLaws.get_newScope hwf hf data k
+
+/-- exactly as many arguments as parameters: bound positionally -/
+theorem bind_exact (nps : List (String × Option Pos)) (hamp : ∀ np ∈ nps, np.1 ≠ "&") (pp : Option Pos)
+    (args : List Val) (hl : args.length = nps.length) :
+    bindParams (.list (mkParams nps) pp) args = .ok (bindFixed (nps.map (·.1)) args []) ∧
+    bindParams (.vec (mkParams nps) pp) args = .ok (bindFixed (nps.map (·.1)) args []) :=
+  Proofs.EvalLaws.bindParams_exact nps hamp pp args hl
+
+/-- `&` collects the remaining arguments as a list -/
+theorem bind_rest (nps : List (String × Option Pos)) (hamp : ∀ np ∈ nps, np.1 ≠ "&")
+    (pa : Option Pos) (r : String) (pr : Option Pos) (junk : List Val) (pp : Option Pos)
+    (args : List Val) (hl : nps.length ≤ args.length) :
+    bindParams (.list (mkParams nps ++ .sym "&" pa :: .sym r pr :: junk) pp) args =
+      .ok (ainsert r (.list (args.drop nps.length) none) (bindFixed (nps.map (·.1)) args [])) ∧
+    bindParams (.vec (mkParams nps ++ .sym "&" pa :: .sym r pr :: junk) pp) args =
+      .ok (ainsert r (.list (args.drop nps.length) none) (bindFixed (nps.map (·.1)) args [])) :=
+  Proofs.EvalLaws.bindParams_rest nps hamp pa r pr junk pp args hl
+
+/-- too few arguments: the binder fails -/
+theorem bind_too_few (nps : List (String × Option Pos)) (hamp : ∀ np ∈ nps, np.1 ≠ "&") (pp : Option Pos)
+    (args : List Val) (hl : args.length < nps.length) :
+    (∃ msg, bindParams (.list (mkParams nps) pp) args = .error (.lisp (.goerr msg) none)) ∧
+    (∃ msg, bindParams (.vec (mkParams nps) pp) args = .error (.lisp (.goerr msg) none)) :=
+  Proofs.EvalLaws.bindParams_too_few nps hamp pp args hl
+
+/-- too many arguments: the binder fails -/
+theorem bind_too_many (nps : List (String × Option Pos)) (hamp : ∀ np ∈ nps, np.1 ≠ "&") (pp : Option Pos)
+    (args : List Val) (hl : nps.length < args.length) :
+    (∃ msg, bindParams (.list (mkParams nps) pp) args = .error (.lisp (.goerr msg) none)) ∧
+    (∃ msg, bindParams (.vec (mkParams nps) pp) args = .error (.lisp (.goerr msg) none)) :=
+  Proofs.EvalLaws.bindParams_too_many nps hamp pp args hl
+
+/-- … and a binder failure is the (unpositioned) error of the call, in the state the arguments left:
+    no scope is created and the body is not evaluated -/
+theorem eval_apply_closure_arity_error (hc : st.cancelAt = none) (hs : st.stepper = none) {f : Val}
+    {args : List Val} (hm : HeadNotMacro st env f) (hsf : a0sym f ∉ specialForms)
+    {params body : Val} {fenv : Nat} {m : Bool} {fp : Option Pos} {vs : List Val} {st1 : State} {msg : String}
+    {ep : Option Pos}
+    (hargs : evalList (F+1) (tick st) env (f :: args) d = (.ok (.fn params body fenv m fp :: vs), st1))
+    (hbind : bindParams params vs = .error (.lisp (.goerr msg) ep)) :
+    evalLoop (F+2) st env (.list (f :: args) pos) d =
+      (.err (.lisp (.goerr (msg ++ " (around do)")) none), st1) :=
+  Proofs.EvalLaws.eval_apply_closure_arity_error hc hs hm hsf hargs hbind
+
+/-- calling a builtin: after head and arguments have been evaluated, the builtin is applied to the
+    values in the state they left; its error is positioned at the call form (unless it already carries
+    a position) -/
+theorem eval_apply_builtin (hc : st.cancelAt = none) (hs : st.stepper = none) {f : Val} {args : List Val}
+    (hm : HeadNotMacro st env f) (hsf : a0sym f ∉ specialForms)
+    {name : String} {vs : List Val} {st1 : State}
+    (hargs : evalList (F+1) (tick st) env (f :: args) d = (.ok (.builtin name :: vs), st1)) :
+    evalLoop (F+2) st env (.list (f :: args) pos) d =
+      match callBuiltin (F+1) st1 name vs d with
+      | (.ok v, st2) => (.ok v, st2)
+      | (.err e, st2) => (.err (newLispError e (.list (f :: args) pos)), st2)
+      | (.oof, st2) => (.oof, st2) :=
+  Proofs.EvalLaws.eval_apply_builtin hc hs hm hsf hargs
+
+/-- the builtins that do not call back into the evaluator are pure functions of the argument values -/
+theorem builtin_pure (st1 : State) {name : String} (vs : List Val)
+    (hn : name ∉ ["trace!", "depth!", "eval", "apply", "map", "atom", "deref", "reset!", "swap!", "update",
+      "update-in"]) :
+    callBuiltin (F+1) st1 name vs d =
+      match Core.call name vs with
+      | some (.ok v) => (.ok v, st1)
+      | some (.thrown v) => (.err (.lisp v none), st1)
+      | some (.goerr m) => (.err (.lisp (.goerr m) none), st1)
+      | none => (.err (.lisp (.goerr ("unmodelled builtin " ++ name)) none), st1) :=
+  Proofs.EvalLaws.callBuiltin_pure st1 vs hn
+
+/-- the effect primitive of the harness: `(trace! v)` appends `v` to the trace -/
+theorem builtin_trace (st1 : State) (v : Val) :
+    callBuiltin (F+1) st1 "trace!" [v] d = (.ok v, { st1 with trace := v :: st1.trace }) :=
+  Proofs.EvalLaws.callBuiltin_trace st1 v
+
+/-- a head that evaluates to something that is neither a closure nor a builtin: an error, after the
+    arguments have been evaluated -/
+theorem eval_non_callable_head_errors (hc : st.cancelAt = none) (hs : st.stepper = none) {f : Val}
+    {args : List Val} (hm : HeadNotMacro st env f) (hsf : a0sym f ∉ specialForms)
+    {fv : Val} {vs : List Val} {st1 : State}
+    (hargs : evalList (F+1) (tick st) env (f :: args) d = (.ok (fv :: vs), st1))
+    (hnf : ∀ ps b e m p, fv ≠ .fn ps b e m p) (hnb : ∀ n, fv ≠ .builtin n) :
+    evalLoop (F+2) st env (.list (f :: args) pos) d =
+      (.err (.lisp (.goerr "attempt to call non-function") none), st1) :=
+  Proofs.EvalLaws.eval_non_callable_head_errors hc hs hm hsf hargs hnf hnb
+
+/-- an error while evaluating the head or an argument is the error of the call: nothing is called -/
+theorem eval_args_error (hc : st.cancelAt = none) (hs : st.stepper = none) {f : Val}
+    {args : List Val} (hm : HeadNotMacro st env f) (hsf : a0sym f ∉ specialForms) {e : Err} {st1 : State}
+    (hargs : evalList (F+1) (tick st) env (f :: args) d = (.err e, st1)) :
+    evalLoop (F+2) st env (.list (f :: args) pos) d = (.err e, st1) :=
+  Proofs.EvalLaws.eval_args_error hc hs hm hsf hargs
+
+/-- effect order of a call `(f a₁ … aₙ)`: there is a left-to-right run of head and arguments with effect
+    segments `ts = [t(f), t(a₁), …, t(aₙ)]` (one per form), and the trace after the call is
+    `t(call) ++ t(aₙ) ++ … ++ t(a₁) ++ t(f) ++ old trace` (most recent first): all effects of the
+    arguments, in argument order, before any effect of the call itself -/
+theorem args_effects_in_order (hc : st.cancelAt = none) (hs : st.stepper = none) {f : Val} {args : List Val}
+    (hm : HeadNotMacro st env f) (hsf : a0sym f ∉ specialForms) {r : Res Val} {st' : State}
+    {el : List Val} {st1 : State}
+    (hargs : evalList (F+1) (tick st) env (f :: args) d = (.ok el, st1))
+    (h : evalLoop (F+2) st env (.list (f :: args) pos) d = (r, st')) :
+    ∃ (ts : List (List Val)) (tcall : List Val),
+      ArgRun env d (F+1) (tick st) (f :: args) el ts st1 ∧ ts.length = args.length + 1 ∧
+      st1.trace = ts.reverse.flatten ++ st.trace ∧
+      st'.trace = tcall ++ ts.reverse.flatten ++ st.trace :=
+  Proofs.EvalLaws.args_effects_in_order hc hs hm hsf hargs h
+
+/-- the trace of a run is the concatenation of its segments, latest form first -/
+theorem run_trace {F : Nat} {xs vs : List Val} {ts : List (List Val)} {st' : State}
+    (h : ArgRun env d F st xs vs ts st') : st'.trace = ts.reverse.flatten ++ st.trace :=
+  Proofs.EvalLaws.argRun_trace_eq h
+
+/-! ### non-vacuity: the laws' side conditions hold on the harness environment, and concrete programs
+    compute (kernel evaluation of the model on `initState`) -/
+
+private def S (s : String) : Val := .sym s none
+private def L (xs : List Val) : Val := .list xs none
+private def I (n : Int) : Val := .int n
+
+private def isInt (r : R) (n : Int) : Bool :=
+  match r.1 with
+  | .ok (.int m) => m == n
+  | _ => false
+
+private def isErr (r : R) : Bool :=
+  match r.1 with
+  | .err _ => true
+  | _ => false
+
+/-- run a program on the harness environment (top-level `EVAL`, depth 1) -/
+private def run (prog : Val) : R := eval 300 initState 0 prog 1
+
+private def traceIs (r : R) (ns : List Int) : Bool :=
+  r.2.trace.length == ns.length &&
+  (r.2.trace.zip ns).all (fun p => match p.1 with | .int m => m == p.2 | _ => false)
+
+/-- the harness environment satisfies the standing conditions -/
+example : initState.stepper = none ∧ initState.cancelAt = none ∧ ScopesWF initState :=
+  ⟨rfl, rfl, Proofs.EvalLaws.scopesWF_initState⟩
+example : ∀ s ∈ specialForms, initState.get 0 s = none := by decide +kernel
+
+/-- closure capture: `(let (x 1) ((fn (y) (+ x y)) 2))` ⇒ 3 -/
+example : isInt (run
+    (L [S "let", L [S "x", I 1], L [L [S "fn", L [S "y"], L [S "+", S "x", S "y"]], I 2]])) 3 = true := by
+  decide +kernel
+
+/-- lexical, not dynamic: `(let (x 1) (let (f (fn () x)) (let (x 2) (f))))` ⇒ 1 -/
+example : isInt (run
+    (L [S "let", L [S "x", I 1],
+      L [S "let", L [S "f", L [S "fn", L [], S "x"]],
+        L [S "let", L [S "x", I 2], L [S "f"]]]])) 1 = true := by
+  decide +kernel
+
+/-- a shadowing `let` inside a closure: `(let (x 1) ((fn (y) (let (x 10) (+ x y))) x))` ⇒ 11 -/
+example : isInt (run
+    (L [S "let", L [S "x", I 1],
+      L [L [S "fn", L [S "y"], L [S "let", L [S "x", I 10], L [S "+", S "x", S "y"]]], S "x"]])) 11 = true := by
+  decide +kernel
+
+/-- sequential `let`: `(let (a 1 b (+ a 1)) b)` ⇒ 2 -/
+example : isInt (run
+    (L [S "let", L [S "a", I 1, S "b", L [S "+", S "a", I 1]], S "b"])) 2 = true := by
+  decide +kernel
+
+/-- a closure counter: `(let (c (atom 0) inc (fn () (swap! c (fn (n) (+ n 1))))) (do (inc) (inc) (deref c)))` ⇒ 2 -/
+example : isInt (run
+    (L [S "let", L [S "c", L [S "atom", I 0],
+                   S "inc", L [S "fn", L [], L [S "swap!", S "c", L [S "fn", L [S "n"], L [S "+", S "n", I 1]]]]],
+      L [S "do", L [S "inc"], L [S "inc"], L [S "deref", S "c"]]])) 2 = true := by
+  decide +kernel
+
+/-- `&` rest parameters: `((fn (a & r) (count r)) 1 2 3)` ⇒ 2 -/
+example : isInt (run
+    (L [L [S "fn", L [S "a", S "&", S "r"], L [S "count", S "r"]], I 1, I 2, I 3])) 2 = true := by
+  decide +kernel
+
+/-- recursion through `def`: `(do (def f (fn (n) (if (= n 0) 0 (+ n (f (- n 1)))))) (f 4))` ⇒ 10 -/
+example : isInt (run
+    (L [S "do",
+      L [S "def", S "f", L [S "fn", L [S "n"],
+        L [S "if", L [S "=", S "n", I 0], I 0, L [S "+", S "n", L [S "f", L [S "-", S "n", I 1]]]]]],
+      L [S "f", I 4]])) 10 = true := by
+  decide +kernel
+
+/-- effect order: `(do (trace! 1) (+ (trace! 2) (trace! 3)))` ⇒ 5 with effects 1, 2, 3 in this order -/
+example : (let r := run (L [S "do", L [S "trace!", I 1], L [S "+", L [S "trace!", I 2], L [S "trace!", I 3]]]);
+    isInt r 5 && traceIs r [3, 2, 1]) = true := by
+  decide +kernel
+
+/-- only the selected branch: `(if nil (trace! 1) (trace! 2))` has the single effect 2 -/
+example : (let r := run (L [S "if", .nil, L [S "trace!", I 1], L [S "trace!", I 2]]);
+    isInt r 2 && traceIs r [2]) = true := by
+  decide +kernel
+
+/-- an error in an argument stops the later arguments: `(+ (trace! 1) (undefined-symbol) (trace! 2))` -/
+example : (let r := run (L [S "+", L [S "trace!", I 1], L [S "nope"], L [S "trace!", I 2]]);
+    isErr r && traceIs r [1]) = true := by
+  decide +kernel
+
+/-- too many arguments: the body is not evaluated: `((fn (a) (trace! 9)) 1 2)` is an error, no effect -/
+example : (let r := run (L [L [S "fn", L [S "a"], L [S "trace!", I 9]], I 1, I 2]);
+    isErr r && traceIs r []) = true := by
+  decide +kernel
 
 end LispModel.Props.C01
